@@ -168,6 +168,17 @@ def worker_loop(
                 except Exception as e:
                     # Log any error during processing without crashing the loop
                     worker_logger.exception(f"Worker failed job {job_id}: {e}")
+                    # Report the failure so the master can fail the job's Future
+                    # instead of leaving the caller waiting forever
+                    error_ctx = ContextType()
+                    error_ctx.set_value("job_id", job_id)
+                    transport.publish(
+                        f"jobs.{job_id}.status",
+                        data=None,
+                        context=error_ctx,
+                        metadata={"job_id": job_id, "status": "failed", "error": e},
+                        require_ack=False,
+                    )
 
             # Close this subscription before the next polling iteration
             sub.close()
